@@ -11,7 +11,13 @@ User callbacks are arbitrary Python; the only thing `fit` reads back from them i
 `on_batch_start` and `on_batch_end` of batch `(e,b)`" (e.g. from inside a wrapped
 `compute_batch_gradients` / optimizer). Every event occurs at most once in a run, so this is
 fully general for deterministic callbacks.
+
+The second half (`CbArg`, `batchesPerEpoch`, `Args`, `fitArgs`, `session`) models how the arguments the
+caller passes determine the configuration (`callbacks=` container forms, number of zipped batches per
+epoch from `N`, `pos_batch_size`, `neg_batch_size`, bases) and several consecutive `fit` calls on the
+same object (only the flag survives a call).
 -/
+import QV.Model.Batching
 namespace QV.Train
 
 /-- The six callback events (`CallbackBase.on_*`, qucumber/callbacks/callback.py). -/
@@ -163,6 +169,112 @@ def fit (c : Cfg) (R : Req) (stop₀ : Bool) : List Entry × S :=
     let r2 := epochLoop c R (epochRange c.start c.epochs) r1.2
     let r3 := dispatch c R .trainEnd r2.2
     (r1.1 ++ r2.1 ++ r3.1, r3.2)
+
+/-! ### The arguments of `fit` as the caller passes them; consecutive calls on one object -/
+
+/-- The `callbacks=` argument as Python sees it: `None` (the default), a `list`, a `tuple`, a
+`CallbackList` instance (a `MutableSequence` with `__len__`/`__iter__`, callback_list.py:21-45) or a
+one-shot iterator / generator (no `__len__`, no `__bool__`). Elements are callback identities. -/
+inductive CbArg where
+  | none
+  | list (l : List Nat)
+  | tuple (l : List Nat)
+  | cbList (l : List Nat)
+  | iter (l : List Nat)
+  deriving DecidableEq, Repr, Inhabited
+
+/-- the callbacks the caller listed, in order (`None`: none) -/
+def CbArg.elems : CbArg → List Nat
+  | .none => []
+  | .list l => l
+  | .tuple l => l
+  | .cbList l => l
+  | .iter l => l
+
+/-- Python truthiness (`if callbacks`): `None` and empty sized containers are falsy (`__len__() == 0`),
+an iterator object is always truthy -/
+def CbArg.truthy : CbArg → Bool
+  | .none => false
+  | .list l => !l.isEmpty
+  | .tuple l => !l.isEmpty
+  | .cbList l => !l.isEmpty
+  | .iter _ => true
+
+/-- `CallbackList(callbacks if callbacks else [])` (neural_state.py:564) with
+`self.callbacks = list(callbacks)` (callback_list.py:22-24): the user callbacks `fit` dispatches to.
+(`list(x)` of a truthy argument enumerates its elements; for `None` the branch is not taken.) -/
+def wrapCallbacks (a : CbArg) : List Nat :=
+  if a.truthy then a.elems else []
+
+/-- Number of items the zipped `data_iterator` of one epoch yields, from the sizes only
+(neural_state.py:568 `neg_batch_size` default, :597 `num_batches`, :458-498 `_shuffle_data`):
+`⌈N/pos⌉` positive (and bases) slices; the negative samples have `N` rows when there are no bases and
+the two sizes agree (same permutation), otherwise `num_batches * neg` rows (`torch.randint`), sliced by
+`neg`; `zip` stops at the shortest. `ZeroDivisionError` for `pos_batch_size = 0`. -/
+def batchesPerEpoch (N posB : Nat) (negB : Option Nat) (hasBases : Bool) : Except PyErr Nat :=
+  match Batching.numBatches N posB with
+  | .error e => .error e
+  | .ok nb =>
+    let neg := Batching.effNegB negB posB
+    let posCount := (Batching.batchStarts N posB).length
+    let negRows := if !hasBases && neg == posB then N else nb * neg
+    let negCount := (Batching.batchStarts negRows neg).length
+    .ok (if hasBases then min posCount (min negCount posCount) else min posCount negCount)
+
+/-- The arguments of one `fit` call that shape the control flow, as the caller passes them. -/
+structure Args where
+  /-- `starting_epoch` -/
+  start : Int
+  /-- `epochs` -/
+  epochs : Int
+  /-- number of training rows `len(data)` (any container: tensor of any dtype/stride, ndarray, list) -/
+  N : Nat
+  /-- `pos_batch_size` -/
+  posB : Nat
+  /-- `neg_batch_size` (`None` = default) -/
+  negB : Option Nat
+  /-- `input_bases is not None` -/
+  hasBases : Bool
+  /-- `callbacks=` -/
+  callbacks : CbArg
+  /-- `time=` -/
+  time : Bool
+  /-- `scheduler is not None` -/
+  hasSched : Bool
+
+/-- the configuration `fit` derives from its arguments, given the number of batches per epoch -/
+def Args.cfg (a : Args) (nb : Nat) : Cfg :=
+  { start := a.start, epochs := a.epochs, numBatches := nb, cbs := wrapCallbacks a.callbacks,
+    timer := a.time, hasSched := a.hasSched }
+
+/-- `fit(data, epochs, pos_batch_size, neg_batch_size, …, callbacks=…)` from the caller's arguments.
+The early return (neural_state.py:558) precedes every other evaluation. (For `pos_batch_size = 0` the
+real code raises after `on_train_start` has been dispatched; that partial log is not modelled.) -/
+def fitArgs (a : Args) (R : Req) (stop₀ : Bool) : Except PyErr (List Entry × S) :=
+  if stop₀ then .ok (fit (a.cfg 0) R true)
+  else
+    match batchesPerEpoch a.N a.posB a.negB a.hasBases with
+    | .error e => .error e
+    | .ok nb => .ok (fit (a.cfg nb) R false)
+
+/-- One call of a session: what the caller does to the flag before it (`pre = some v`:
+`nn_state.stop_training = v`; `none`: nothing), the arguments, the behaviour of the callbacks. -/
+structure Run where
+  pre : Option Bool
+  args : Args
+  req : Req
+
+/-- Consecutive `fit` calls on the same object: the only thing a call leaves behind that the next call
+reads is `stop_training` (optimizer, scheduler, `CallbackList`, `Timer`, batches are rebuilt per call). -/
+def session : List Run → Bool → Except PyErr (List (List Entry × S))
+  | [], _ => .ok []
+  | r :: rest, stop =>
+    match fitArgs r.args r.req (match r.pre with | some v => v | none => stop) with
+    | .error e => .error e
+    | .ok out =>
+      match session rest out.2.stop with
+      | .error e => .error e
+      | .ok outs => .ok (out :: outs)
 
 /-! ### Projections of a log (used by the theorems and by the driver) -/
 
